@@ -180,3 +180,30 @@ def working_slice_is_fresh(repo, ctx, rule):
                       f'a field of the working record is rebound to {U.src(tgt_val)[:60]}, an index/slice expression of a history array (a numpy view): the in-place updates of the working state '
                       'during a step overwrite the row already recorded', construct=U.src(s)[:100])
     ctx.floor(rule + '/transfers', n, 1)
+
+
+def pbm_index_agreement(repo, ctx, rule, paths=(EULER,)):
+    """a `*FromN` moment evaluates a supplied distribution on the grid of the population balance it is called on: the
+    distribution of phase j must be given to the population balance of phase j - self.PBM[i].<..>FromN(x[j], ..) needs i == j
+    (the receiver may be a local alias of self.PBM[i])."""
+    n = 0
+    for path in paths:
+        for q, f in repo.functions(path):
+            defs = single_defs(f)
+            for c in U.calls(f):
+                if not (isinstance(c.func, ast.Attribute) and c.func.attr.endswith('FromN') and c.args):
+                    continue
+                a0 = c.args[0]
+                if not (isinstance(a0, ast.Subscript) and isinstance(a0.value, ast.Name)):
+                    continue
+                recv = c.func.value
+                if isinstance(recv, ast.Name) and recv.id in defs:
+                    recv = defs[recv.id]
+                if not (isinstance(recv, ast.Subscript) and U.chain(recv.value) in (('self', 'PBM'),)):
+                    continue
+                n += 1
+                i, j = U.src(recv.slice), U.src(a0.slice)
+                ctx.check(i == j, rule, path, q, c, f'the distribution of phase {j} is evaluated on the population balance of the same phase',
+                          f'{U.src(c)[:80]}: the distribution of phase {j} is evaluated on the grid of phase {i} - the moment belongs to neither phase '
+                          '(sites / volume taken by another phase are counted with the wrong distribution)', construct=U.src(c)[:100])
+    ctx.floor(rule, n, 4)
